@@ -10,7 +10,9 @@ QUICK_N = 90
 THOROUGH_N = 2000
 LEVEL_NOTE = ("proved in Lean: (values) cache unobservable, options independent; (references, BB.Model.Heap) a read-only call - a "
               "program that writes only what it allocated itself and validation caches - leaves every user-held object, its receiver "
-              "included, unchanged, for every history and interleaving (heap_query_frame, heap_readonly). Decided by correspondence, "
+              "included, unchanged, for every history and interleaving (heap_query_frame, heap_readonly); the library's own method programs never "
+              "break the ownership discipline on any reachable state (Shaped invariant: heap_lib_step, heap_lib_history, "
+              "heap_lib_readonly carry no no-fault hypothesis). Decided by correspondence, "
               "not proved: that the Python methods are such programs (after every read-only call the id() walk finds no changed "
               "object and no new sharing; every result equals the value model's). Trusted: Lean kernel + propext/Quot.sound/"
               "Classical.choice, the harness incl. its object walker; numpy/CPython modelled not verified")
